@@ -6,7 +6,9 @@
 package h
 
 import (
+	"encoding/json"
 	"fmt"
+	"os"
 	"sync"
 	"time"
 
@@ -59,7 +61,11 @@ func Install() {
 		return
 	}
 	installed = true
+	storeTraceInit()
 	moss.VerifTracer = func(info moss.VerifInfo) {
+		if info.Store != nil {
+			storeTraceEvent(info)
+		}
 		s := lookup(info.Coll, info.Store)
 		if s != nil {
 			s.record(info)
@@ -109,6 +115,50 @@ func lookup(c moss.Collection, st *moss.Store) *Sched {
 		}
 	}
 	return pending
+}
+
+// Store trace (direction B, TraceStore.tla): when VERIF_STORE_TRACE names a directory, every
+// footer swap of every store this process opens is written there as one ndjson record.
+var (
+	storeTraceMu  sync.Mutex
+	storeTraceEnc *json.Encoder
+	storeTraceIDs = map[*moss.Store]int{}
+)
+
+func storeTraceInit() {
+	dir := os.Getenv("VERIF_STORE_TRACE")
+	if dir == "" {
+		return
+	}
+	f, err := os.Create(fmt.Sprintf("%s/store-%d.ndjson", dir, os.Getpid()))
+	if err == nil {
+		storeTraceEnc = json.NewEncoder(f)
+	}
+}
+
+func storeTraceEvent(info moss.VerifInfo) {
+	if storeTraceEnc == nil {
+		return
+	}
+	ev := map[string]string{"store.open": "new", "store.persist.swap": "persist", "store.compact.swap": "compact", "store.revert.swap": "revert"}[info.Point]
+	if ev == "" {
+		return
+	}
+	storeTraceMu.Lock()
+	defer storeTraceMu.Unlock()
+	id, ok := storeTraceIDs[info.Store]
+	if !ok {
+		id = len(storeTraceIDs) + 1
+		storeTraceIDs[info.Store] = id
+	}
+	splice := 0
+	if len(info.Extra) > 0 {
+		if n, ok := info.Extra[0].(int); ok {
+			splice = n
+		}
+	}
+	storeTraceEnc.Encode(map[string]interface{}{"ev": ev, "s": id, "new": !ok, "file": info.FileName, "pos": info.FooterPos, "prev": info.PrevPos,
+		"nsl": info.NumSlocs, "pers": info.Persists, "comp": info.Compacts, "comppt": info.CompactsPt, "splice": splice})
 }
 
 // NewSched creates a scheduler; until Bind is called it receives the
